@@ -41,10 +41,37 @@ func TestHistories(t *testing.T) {
 	vlib.RunRapid(t, "mtt", "history", st, func(rt *rapid.T) vlib.Outcome {
 		max, min := drawSettings(rt)
 		w := NewWorld(prop, max, min, st)
+		// another tournament may run in the same process: it registers, starts and
+		// syncs on its own; nothing of it may show in this one
+		var sib *World
+		sibNames := 0
+		if rapid.IntRange(0, 2).Draw(rt, "siblingTournament") == 0 {
+			sib = NewWorld("", max, min, vlib.NewStats("sibling"))
+			sib.namePrefix = "other"
+			w.Facts["sibling-tournament"] = true
+		}
 		var ops []MOp
 		n := rapid.IntRange(1, 60).Draw(rt, "length")
 		for i := 0; i < n && w.V == nil && !w.Facts["aborted"]; i++ {
+			if sib != nil && rapid.IntRange(0, 2).Draw(rt, "siblingActs") == 0 {
+				cnt := rapid.IntRange(0, 2*max).Draw(rt, "siblingAdd")
+				ops = append(ops, MOp{K: "sibling-add", N: cnt})
+				sib.Add(cnt)
+				if sib.Status == 0 && rapid.Bool().Draw(rt, "siblingStart") {
+					ops = append(ops, MOp{K: "sibling-status", N: 1})
+					sib.SetStatus(1)
+				}
+				sibNames += cnt
+				w.Check("sibling-call")
+				continue
+			}
 			k := rapid.IntRange(0, 19).Draw(rt, "op")
+			if k == 19 && len(w.Elim) > 0 {
+				cnt := rapid.IntRange(1, 3).Draw(rt, "reEntries")
+				ops = append(ops, MOp{K: "re-enter", N: cnt})
+				w.ReEnter(cnt)
+				continue
+			}
 			switch {
 			case k < 6:
 				cnt := rapid.IntRange(0, 3).Draw(rt, "few")
@@ -142,6 +169,7 @@ func orderFn(seed int) func(ids []string, sweep int) []string {
 func replayCase(c *Case, prop string) *vlib.Violation {
 	for attempt := 0; attempt < 256; attempt++ {
 		w := NewWorld(prop, c.Max, c.Min, vlib.NewStats("replay"))
+		var sib *World
 		diverged := false
 		for _, op := range c.Ops {
 			if w.V != nil || w.Facts["aborted"] {
@@ -162,6 +190,19 @@ func replayCase(c *Case, prop string) *vlib.Violation {
 				}
 			case "settle":
 				w.Settle(orderFn(op.Rot))
+			case "re-enter":
+				w.ReEnter(op.N)
+			case "sibling-add":
+				if sib == nil {
+					sib = NewWorld("", c.Max, c.Min, vlib.NewStats("sibling"))
+					sib.namePrefix = "other"
+				}
+				sib.Add(op.N)
+				w.Check("sibling-call")
+			case "sibling-status":
+				if sib != nil {
+					sib.SetStatus(op.N)
+				}
 			}
 			if diverged {
 				break
